@@ -115,6 +115,9 @@ def pretty_list_elems(parent_event: MarshalEvent, events_generator):
             and parent.path[-1].name == event.path[-1].name
         )
 
+    # warnings seen before the row of this list is printed are shown right after it (event order)
+    deferred = []
+
     if is_tpm2b:
         # consume all list elements
         child_buffer = b""
@@ -127,7 +130,7 @@ def pretty_list_elems(parent_event: MarshalEvent, events_generator):
                 break
 
             if not isinstance(child_event, MarshalEvent):
-                yield from pretty(child_event)
+                deferred.append(child_event)
                 continue
 
             # abort if it is not a list element
@@ -139,6 +142,8 @@ def pretty_list_elems(parent_event: MarshalEvent, events_generator):
         filter = b"................................ !\"#$%&'()*+,-./0123456789:;<=>?@ABCDEFGHIJKLMNOPQRSTUVWXYZ[\\]^_`abcdefghijklmnopqrstuvwxyz{|}~................................................................................................................................."
         printable = child_buffer.translate(filter).decode()
         yield format(parent_event.type, parent_event.path, child_buffer, printable)
+        for info_event in deferred:
+            yield from pretty(info_event)
         return child_event
     else:
         # consume all list elements
@@ -149,18 +154,28 @@ def pretty_list_elems(parent_event: MarshalEvent, events_generator):
             except StopIteration:
                 if is_empty:
                     yield from pretty(parent_event)
+                for info_event in deferred:
+                    yield from pretty(info_event)
                 return None
 
             if not isinstance(child_event, MarshalEvent):
-                yield from pretty(child_event)
+                if is_empty:
+                    deferred.append(child_event)
+                else:
+                    yield from pretty(child_event)
                 continue
 
             # abort if it is not a list element
             if not is_child(parent_event, child_event):
                 if is_empty:
                     yield from pretty(parent_event)
+                for info_event in deferred:
+                    yield from pretty(info_event)
                 return child_event
 
+            for info_event in deferred:
+                yield from pretty(info_event)
+            deferred = []
             yield from pretty(child_event)
             is_empty = False
 
